@@ -63,7 +63,7 @@ fn general_case(st: &mut Stats, seed: u64) {
         p
     }).collect();
     sc.dgrams.clear();
-    let meta = Meta { abnormal_end: false, dgram_cap: [16, 16], stream_is_bridge: false, sim: true };
+    let meta = Meta { abnormal_end: false, dgram_cap: [16, 16], stream_is_bridge: false, sim: true, ..Meta::default() };
     let c = streams::execute(st, &SPEC, &sc, &meta, "general");
     st.target("streams_established", c.get("streams_opened"));
     st.cell("concurrent_opens", n);
@@ -235,7 +235,7 @@ fn scripted_case(st: &mut Stats, seed: u64, collide: bool) {
         sim::RunEnd::Stalled => viol(st, format!("stall|{kind}"), "an open request never resolved (system idle)".into(), kind, seed, &log),
         sim::RunEnd::Panicked(m) => st.inconclusive.push(format!("harness panic in c07 {kind}: {m}")),
     }
-    let meta = Meta { abnormal_end: false, dgram_cap: [16, 16], stream_is_bridge: false, sim: true };
+    let meta = Meta { abnormal_end: false, dgram_cap: [16, 16], stream_is_bridge: false, sim: true, ..Meta::default() };
     let an = monitors::analyse(&log, SPEC.fams, &meta);
     for f in an.findings {
         viol(st, format!("{}|{kind}", f.sig), f.detail, kind, seed, &log[..f.at.min(log.len())]);
